@@ -191,7 +191,7 @@ func c13Run(cs c13Case, ch vrt.Chooser, trace bool) (*world.World, *vrt.Exec, *c
 			}
 			return vnet.DialOutcome{Kind: vnet.DialRefuse}
 		})
-		if err := w.Server.AddPeer(peerConfig(remIP, 65001, 65002), pl, opts...); err != nil {
+		if err := w.AddPeer(peerConfig(remIP, 65001, 65002), pl, opts...); err != nil {
 			panic("harness: " + err.Error())
 		}
 		if cs.Peers == "P1+P2" {
@@ -498,7 +498,7 @@ func c13DeletingScn(passive bool, api string, j, bound int) *Scn {
 				opts = append(opts, corebgp.WithPassive())
 			}
 			w.NW.OnDial(remAddr, func(int, *net.TCPAddr) vnet.DialOutcome { return vnet.DialOutcome{Kind: vnet.DialRefuse} })
-			if err := w.Server.AddPeer(peerConfig(remIP, 65001, 65002), pl, opts...); err != nil {
+			if err := w.AddPeer(peerConfig(remIP, 65001, 65002), pl, opts...); err != nil {
 				panic("harness: " + err.Error())
 			}
 			w.Serve(libAddr)
